@@ -786,35 +786,113 @@ impl Generator {
 
 // first-applicable-mutator-wins loops of src/generator/mutation.rs (the registered mutators are an
 // opaque list with the trait-level contract of contracts/shim.rs)
+    /// C15 "mutated by the first such mutator": the registered mutators are asked in order, each sees the ORIGINAL value
+    /// and the entropy state its predecessors left, and the first one that fires decides the result
+    pub open spec fn first_int(ms: &VfMutators, k: int, v: i32, s: GenerationSource, rate: f64) -> (i32, GenerationSource)
+        decreases vf_mutators_len_spec(ms) - k
+    {
+        if k < 0 || k >= vf_mutators_len_spec(ms) { (v, s) }
+        else {
+            let m = vf_mutator_spec(ms, k);
+            match m.sp_int(v, s, rate) {
+                Some(x) => (x, m.sp_int_src(v, s, rate)),
+                None => Generator::first_int(ms, k + 1, v, m.sp_int_src(v, s, rate), rate),
+            }
+        }
+    }
+
 //@fn src/generator/mutation.rs Generator::mutate_int
 //@ret r
 //@props C04 C09 C15
 //@use MUTATE_SUBSTS
 //@contract
+    ensures
+        (r, *final(source)) == Generator::first_int(&self.mutators, 0, value, *old(source), self.mutation_rate), // @C15
 //@loop 1
+            invariant_except_break
+                result == value,
+                Generator::first_int(&self.mutators, vf_k as int, value, *source, self.mutation_rate)
+                    == Generator::first_int(&self.mutators, 0, value, *old(source), self.mutation_rate),
             invariant vf_k <= vf_mutators_len_spec(&self.mutators),
+            ensures
+                (result, *source) == Generator::first_int(&self.mutators, 0, value, *old(source), self.mutation_rate), // @C15
             decreases vf_mutators_len_spec(&self.mutators) - vf_k,
 //@endfn
+
+    pub open spec fn first_float(ms: &VfMutators, k: int, v: f64, s: GenerationSource, rate: f64) -> (f64, GenerationSource)
+        decreases vf_mutators_len_spec(ms) - k
+    {
+        if k < 0 || k >= vf_mutators_len_spec(ms) { (v, s) }
+        else {
+            let m = vf_mutator_spec(ms, k);
+            match m.sp_float(v, s, rate) {
+                Some(x) => (x, m.sp_float_src(v, s, rate)),
+                None => Generator::first_float(ms, k + 1, v, m.sp_float_src(v, s, rate), rate),
+            }
+        }
+    }
 
 //@fn src/generator/mutation.rs Generator::mutate_float
 //@ret r
 //@props C04 C09 C15
 //@use MUTATE_SUBSTS
 //@contract
+    ensures
+        (r, *final(source)) == Generator::first_float(&self.mutators, 0, value, *old(source), self.mutation_rate), // @C15
 //@loop 1
+            invariant_except_break
+                result == value,
+                Generator::first_float(&self.mutators, vf_k as int, value, *source, self.mutation_rate)
+                    == Generator::first_float(&self.mutators, 0, value, *old(source), self.mutation_rate),
             invariant vf_k <= vf_mutators_len_spec(&self.mutators),
+            ensures
+                (result, *source) == Generator::first_float(&self.mutators, 0, value, *old(source), self.mutation_rate), // @C15
             decreases vf_mutators_len_spec(&self.mutators) - vf_k,
 //@endfn
+
+    pub open spec fn first_memo(ms: &VfMutators, k: int, v: usize, s: GenerationSource, rate: f64) -> (usize, GenerationSource)
+        decreases vf_mutators_len_spec(ms) - k
+    {
+        if k < 0 || k >= vf_mutators_len_spec(ms) { (v, s) }
+        else {
+            let m = vf_mutator_spec(ms, k);
+            match m.sp_memo(v, s, rate) {
+                Some(x) => (x, m.sp_memo_src(v, s, rate)),
+                None => Generator::first_memo(ms, k + 1, v, m.sp_memo_src(v, s, rate), rate),
+            }
+        }
+    }
 
 //@fn src/generator/mutation.rs Generator::mutate_memo_index
 //@ret r
 //@props C02 C09 C15
 //@use MUTATE_SUBSTS
 //@contract
+    ensures
+        (r, *final(source)) == Generator::first_memo(&self.mutators, 0, index, *old(source), self.mutation_rate), // @C15
 //@loop 1
+            invariant_except_break
+                result == index,
+                Generator::first_memo(&self.mutators, vf_k as int, index, *source, self.mutation_rate)
+                    == Generator::first_memo(&self.mutators, 0, index, *old(source), self.mutation_rate),
             invariant vf_k <= vf_mutators_len_spec(&self.mutators),
+            ensures
+                (result, *source) == Generator::first_memo(&self.mutators, 0, index, *old(source), self.mutation_rate), // @C15
             decreases vf_mutators_len_spec(&self.mutators) - vf_k,
 //@endfn
+
+    pub open spec fn first_str(ms: &VfMutators, k: int, v: Seq<char>, s: GenerationSource, rate: f64) -> (Seq<char>, GenerationSource)
+        decreases vf_mutators_len_spec(ms) - k
+    {
+        if k < 0 || k >= vf_mutators_len_spec(ms) { (v, s) }
+        else {
+            let m = vf_mutator_spec(ms, k);
+            match m.sp_str(v, s, rate) {
+                Some(x) => (x, m.sp_str_src(v, s, rate)),
+                None => Generator::first_str(ms, k + 1, v, m.sp_str_src(v, s, rate), rate),
+            }
+        }
+    }
 
 //@fn src/generator/mutation.rs Generator::mutate_string
 //@ret r
@@ -823,19 +901,36 @@ impl Generator {
 //@subst result.clone() => vf_string_clone(&result)
 //@contract
     ensures
+        (r@, *final(source)) == Generator::first_str(&self.mutators, 0, value@, *old(source), self.mutation_rate), // @C15
         // at most ONE mutation is applied, so the per-mutator bounds carry over
         r@.len() <= 2 * value@.len() + 9, // @C11 @C04
         printable(value@) ==> printable(r@), // @C04 @C17
 //@loop 1
             invariant_except_break
                 result@ == value@,
+                Generator::first_str(&self.mutators, vf_k as int, value@, *source, self.mutation_rate)
+                    == Generator::first_str(&self.mutators, 0, value@, *old(source), self.mutation_rate),
             invariant
                 vf_k <= vf_mutators_len_spec(&self.mutators),
             ensures
+                (result@, *source) == Generator::first_str(&self.mutators, 0, value@, *old(source), self.mutation_rate), // @C15
                 result@.len() <= 2 * value@.len() + 9,
                 printable(value@) ==> printable(result@),
             decreases vf_mutators_len_spec(&self.mutators) - vf_k,
 //@endfn
+
+    pub open spec fn first_bytes(ms: &VfMutators, k: int, v: Seq<u8>, s: GenerationSource, rate: f64) -> (Seq<u8>, GenerationSource)
+        decreases vf_mutators_len_spec(ms) - k
+    {
+        if k < 0 || k >= vf_mutators_len_spec(ms) { (v, s) }
+        else {
+            let m = vf_mutator_spec(ms, k);
+            match m.sp_bytes(v, s, rate) {
+                Some(x) => (x, m.sp_bytes_src(v, s, rate)),
+                None => Generator::first_bytes(ms, k + 1, v, m.sp_bytes_src(v, s, rate), rate),
+            }
+        }
+    }
 
 //@fn src/generator/mutation.rs Generator::mutate_bytes
 //@ret r
@@ -844,13 +939,17 @@ impl Generator {
 //@subst result.clone() => vf_vec_clone(&result)
 //@contract
     ensures
+        (r@, *final(source)) == Generator::first_bytes(&self.mutators, 0, value@, *old(source), self.mutation_rate), // @C15
         r@.len() <= 2 * value@.len() + 9, // @C11 @C04
 //@loop 1
             invariant_except_break
                 result@ == value@,
+                Generator::first_bytes(&self.mutators, vf_k as int, value@, *source, self.mutation_rate)
+                    == Generator::first_bytes(&self.mutators, 0, value@, *old(source), self.mutation_rate),
             invariant
                 vf_k <= vf_mutators_len_spec(&self.mutators),
             ensures
+                (result@, *source) == Generator::first_bytes(&self.mutators, 0, value@, *old(source), self.mutation_rate), // @C15
                 result@.len() <= 2 * value@.len() + 9,
             decreases vf_mutators_len_spec(&self.mutators) - vf_k,
 //@endfn
@@ -1349,7 +1448,7 @@ pub fn get_random_module(&self, source: &mut GenerationSource) -> (r: Result<VfT
 //@subst self.state.version as u8 => vf_version_u8(self.state.version)
 //@contract
     requires
-        old(self).output@.len() == 0, // @C08 @C05
+        old(self).output@.len() == 0, // @C08 @C05 @C04 @C06 (the header is written into an empty buffer: otherwise the result is the previous output followed by a second stream)
         !old(self).state.proto_emitted, // @C08 @C05
     ensures
         ver_num(old(self).state.version) >= 2 ==> final(self).output@ == seq![0x80u8, ver_num(old(self).state.version) as u8] && final(self).state.proto_emitted, // @C05
@@ -1671,6 +1770,10 @@ pub fn get_random_module(&self, source: &mut GenerationSource) -> (r: Result<VfT
         res is Ok, // @C09
         final(self).same_config(old(self)), // @C08
         exists|chunk: Seq<u8>| final(self).output@ == old(self).output@ + chunk && #[trigger] old(self).chunk_ok_u(chunk), // @C04 @C10 @C06
+        // C11 in any mode: a chosen body opcode contributes an opcode (not nothing).  BINGET is the one exception the
+        // any-mode contract cannot exclude: it needs a memo key below 256, which holds because the simulated memo keys
+        // are 0..len (proved in safe mode through `contig`, not stated for a drifted simulation)
+        opcode != OpcodeKind::BinGet ==> final(self).output@.len() > old(self).output@.len(), // @C11
 //@enddef
 
 //@fn src/generator/emission.rs Generator::emit_int as emit_int_u
@@ -1698,6 +1801,7 @@ pub fn get_random_module(&self, source: &mut GenerationSource) -> (r: Result<VfT
         res is Ok, // @C09
         final(self).same_config(old(self)), // @C08
         exists|chunk: Seq<u8>| final(self).output@ == old(self).output@ + chunk && #[trigger] old(self).chunk_ok_u(chunk), // @C04
+        final(self).output@.len() > old(self).output@.len(), // @C11
 //@before 1 Ok(())
         proof {
             let chunk = self.output@.subrange(old(self).output@.len() as int, self.output@.len() as int);
@@ -1724,6 +1828,7 @@ pub fn get_random_module(&self, source: &mut GenerationSource) -> (r: Result<VfT
         res is Ok, // @C09
         final(self).same_config(old(self)), // @C08
         exists|chunk: Seq<u8>| final(self).output@ == old(self).output@ + chunk && #[trigger] old(self).chunk_ok_u(chunk), // @C04
+        final(self).output@.len() > old(self).output@.len(), // @C11
 //@before 1 Ok(())
         proof {
             let chunk = self.output@.subrange(old(self).output@.len() as int, self.output@.len() as int);
@@ -1751,6 +1856,7 @@ pub fn get_random_module(&self, source: &mut GenerationSource) -> (r: Result<VfT
         res is Ok, // @C09
         final(self).same_config(old(self)), // @C08
         exists|chunk: Seq<u8>| final(self).output@ == old(self).output@ + chunk && #[trigger] old(self).chunk_ok_u(chunk), // @C04
+        final(self).output@.len() > old(self).output@.len(), // @C11
 //@before 1 Ok(())
         proof {
             let chunk = self.output@.subrange(old(self).output@.len() as int, self.output@.len() as int);
@@ -1781,6 +1887,7 @@ pub fn get_random_module(&self, source: &mut GenerationSource) -> (r: Result<VfT
         res is Ok, // @C09
         final(self).same_config(old(self)), // @C08
         exists|chunk: Seq<u8>| final(self).output@ == old(self).output@ + chunk && #[trigger] old(self).chunk_ok_u(chunk), // @C04
+        final(self).output@.len() > old(self).output@.len(), // @C11
 //@before 1 Ok(())
         proof {
             let chunk = self.output@.subrange(old(self).output@.len() as int, self.output@.len() as int);
